@@ -198,6 +198,9 @@ func scenariosFor(prop string) []scn {
 		// then failures in a row - the retry budget of the window must not have grown
 		both(flowParams{Sources: 1, Records: 5, Batch: 1, Dests: 1, AckScript: []string{"err", "ok", "err", "err", "err", "err"}, IdleBatches: []int{2}, Ctl: []string{"start"}, Retries: 1}, 1, 2)
 		both(flowParams{Sources: 1, Records: 6, Batch: 1, Dests: 1, AckScript: []string{"err", "ok", "err", "err", "err", "err", "err"}, IdleBatches: []int{2}, Ctl: []string{"start"}, Retries: 2}, 0, 1)
+		// isolated transient failures, each followed by a quiet period longer than the retry window: every one of them is
+		// the only attempt in its window and must be recovered from, however many there have been before
+		both(flowParams{Sources: 1, Records: 6, Batch: 1, Dests: 1, AckScript: []string{"err", "ok", "err", "ok", "err", "ok", "err", "ok", "err", "ok", "err", "ok"}, IdleBatches: []int{1, 2, 3, 4, 5}, Retries: 2}, 0, 1)
 	case "C11":
 		hist := [][]string{
 			{"stop", "start", "stopwait"},
@@ -264,6 +267,11 @@ func scenariosFor(prop string) []scn {
 		// a restart-class apply whose restart fails (the second source cannot be opened): cleanly stopped, and it can be
 		// started again
 		both(flowParams{Sources: 2, Records: 2, Batch: 1, Dests: 1, AckMenu: onlyOK, Procs: pp, Apply: []string{"conn"}, GateSrcOpen: []string{"s1"}, Ctl: []string{"start", "stopwait"}}, 1, 2)
+		// three overlapping applies to the same pipeline: the second queues behind the first, the third arrives while the
+		// second is inside
+		both(flowParams{Sources: 1, Records: 2, Batch: 1, Dests: 1, AckMenu: onlyOK, Procs: pp, Apply: []string{"conn", "||proc", "||addproc"}}, 1, 2)
+		// two applies that change the SAME field, planned against the same state
+		both(flowParams{Sources: 1, Records: 2, Batch: 1, Dests: 1, AckMenu: onlyOK, Procs: pp, Apply: []string{"conn", "||conn"}}, 1, 2)
 		// an unauthorised apply arriving while the pipeline waits for its recovery restart
 		both(flowParams{Sources: 1, Records: 2, Batch: 1, Dests: 1, AckMenu: []string{"ok", "err"}, Procs: pp, Apply: []string{"conn+noauth"}, Retries: 1}, 2, 3)
 		// a restart-class apply is draining the pipeline while a second, in-place apply is planned and submitted
@@ -308,6 +316,11 @@ func preemptScenariosFor(prop string) []scn {
 		v2(flowParams{Sources: 2, Records: 1, Batch: 1, Dests: 1, AckMenu: okNack, Stop: "", MaxOcc: 2, PointOnly: pts}, 1, 2)
 	}
 	switch prop {
+	case "C16":
+		// three overlapping applies to one pipeline, with the goroutine of one of them parked inside the per-pipeline lock
+		// or the apply itself: at most one apply is ever inside
+		both3 := []procParam{{ID: "pp"}}
+		v1(flowParams{Sources: 1, Records: 1, Batch: 1, Dests: 1, AckMenu: onlyOK, Procs: both3, Apply: []string{"conn", "||proc", "||addproc"}, MaxOcc: 3}, 0, 1)
 	case "C07":
 		// two sources have a record rejected at about the same time: their dead-letter writes share one DLQ connector
 		// (v1) whose write / confirmation pairs must not cross
@@ -326,6 +339,8 @@ func preemptScenariosFor(prop string) []scn {
 		// write and the hand-over to the acker: a legal reply shape whose effect depends on the interleaving
 		v1(flowParams{Sources: 1, Records: 2, Batch: 1, Dests: 1, AckMenu: []string{"ok", "defer"}, Stop: "stopwait"}, 1, 2)
 		v2(flowParams{Sources: 1, Records: 2, Batch: 1, Dests: 1, AckMenu: []string{"ok", "defer"}, Stop: "stopwait"}, 1, 2)
+		// parallel workers of ONE processor evaluate its condition at the same time (they share the runnable processor)
+		v1(flowParams{Sources: 1, Records: 3, Batch: 1, Dests: 1, AckMenu: onlyOK, NoMatch: []int{1}, Procs: []procParam{{ID: "pp", Workers: 2, Cond: "match"}}, PointOnly: []string{"processor_condition.go", "runnable_processor.go"}, MaxOcc: 4}, 0, 1)
 	case "C06":
 		v1(flowParams{Sources: 1, Records: 2, Batch: 1, Dests: 1, AckMenu: []string{"ok", "defer"}, Stop: "stopwait"}, 1, 2)
 		v2(flowParams{Sources: 1, Records: 2, Batch: 1, Dests: 1, AckMenu: []string{"ok", "defer"}, Stop: "stopwait"}, 1, 2)
